@@ -149,6 +149,11 @@ def run(chk):
 
     fams = list(deep_circuits()) + list(one_gate_circuits(max_arity=4, types=["and", "nor", "xor", "not"])) + list(two_level_circuits(limit=30 if chk.tier == "quick" else 150))
     fams += [(f"corpus::{k}", c) for k, tags, c in corpus(chk.tier, exclude=("x", "names"))]
+    # sub-cones without any primary input (a gate over tie cells only) in front of the output, and a tie cell as the output's operand
+    fams.append(("constant-sub-cone-gating-the-output", build({"a": ("input", []), "k1": ("1", []), "k0": ("0", []), "en": ("xor", ["k1", "k0"]), "o": ("and", ["a", "en"])}, outputs=["o"])))
+    fams.append(("constant-sub-cone-two-levels", build({"a": ("input", []), "b": ("input", []), "k1": ("1", []), "k0": ("0", []), "e1": ("nor", ["k1", "k0"]), "e2": ("not", ["e1"]), "g": ("or", ["a", "e2"]),
+                                                        "o": ("xor", ["g", "b"])}, outputs=["o"])))
+    fams.append(("tie-cell-operand-of-the-output", build({"a": ("input", []), "k1": ("1", []), "o": ("and", ["a", "k1"])}, outputs=["o"])))
     n = 0
     multi_out = [
         ("shared-logic-3-outputs", build({"a": ("input", []), "b": ("input", []), "c": ("input", []), "g0": ("and", ["a", "b"]), "g1": ("or", ["g0", "c"]), "g2": ("nand", ["g1", "a"]),
